@@ -641,7 +641,9 @@ func runFlowCtlCase(w *bufio.Writer, r *u.Rng, caseNo int, dist map[string]int) 
 }
 
 func runFlowCtl(w *bufio.Writer, seed uint64, n int, _ []string) {
-	r := u.NewRng(seed)
+	// NewRng(seed) and NewRng(seed+1) produce the same Fork sequence shifted by one case;
+	// re-seed from a mixed value so that different seeds give unrelated case sets.
+	r := u.NewRng(u.NewRng(seed).U64() ^ 0xC04)
 	dist := map[string]int{}
 	for i := 0; i < n; i++ {
 		runFlowCtlCase(w, r.Fork(), i, dist)
